@@ -225,6 +225,17 @@ Theorem T17h_regression_is_normal_logdensity : forall Phi en meas model sigma vy
 Proof. exact regression_normal. Qed.
 Print Assumptions T17h_regression_is_normal_logdensity.
 
+(* ... and for a scale parameter of either sign (only sigma^2 enters the documented form
+   -(y-m)^2/(2 sigma^2) - log(sigma^2)/2 - log(2 pi)/2): the normal log density with scale |sigma|.
+   A tree that takes log(sigma) instead is NaN for sigma < 0 and does not satisfy this. *)
+Theorem T17h_regression_any_sign : forall Phi en meas model sigma vy vm vs,
+  evalX Phi meas en = XR vy -> evalX Phi model en = XR vm -> evalX Phi sigma en = XR vs -> vs <> 0 ->
+  exists r, evalX Phi (loglikelihoodregression meas model sigma) en = XR r /\
+            evalX Phi (likelihoodregression meas model sigma) en = XR (exp r) /\
+            Rabs (r - ln (normal_density vm (Rabs vs) vy)) <= 1 / 10 ^ 11.
+Proof. exact regression_normal_anysign. Qed.
+Print Assumptions T17h_regression_any_sign.
+
 (* ------------------------------------------------------------------ segmentation *)
 (* T17i. For distinct segment values: beta_ref + beta_k in segment k, beta_ref in the reference
    segment (and for a value that is no key of the mapping). *)
